@@ -302,6 +302,9 @@ int main(void) {
       if (m) d = mj_makeData(m);
       if (!m || !d) printf("error %s\n", m ? "makeData" : err);
       else printf("ok %d %d %d\n", (int)m->nq, (int)m->nv, (int)m->ngeom);
+    } else if (strcmp(op, "opt") && strcmp(op, "adhesion") && strcmp(op, "set") && strcmp(op, "reset") &&
+               strcmp(op, "step") && strcmp(op, "fwd") && strcmp(op, "updline")) {
+      printf("bad-op\n");
     } else if (!m || !d) {
       printf("error no model\n");
     } else if (!strcmp(op, "opt") && n == 8) {
